@@ -406,13 +406,19 @@ func (w *world) observed(a *sess.Act, o sess.Outcome, after map[string]*proj) {
 		}
 	case strings.HasPrefix(a.X, "SELECT_") || strings.HasPrefix(a.X, "EXAMINE_"):
 		box := strings.SplitN(a.X, "_", 2)[1]
+		// the count of the new mailbox is the EXISTS after its FLAGS line (what was pending for the mailbox
+		// selected before is sent first)
+		n, flagsSeen := -1, false
 		for _, l := range o.Untagged {
-			if m := reExists.FindStringSubmatch(l.Text); m != nil {
-				n, _ := strconv.Atoi(m[1])
-				if n != own.Count[box] {
-					w.violate(sig+"/sees", fmt.Sprintf("%s by a session of %s announces %d messages, the mailbox of %s holds %d", a.X, a.AsUser, n, a.AsUser, own.Count[box]))
-				}
+			if strings.HasPrefix(l.Text, "* FLAGS ") {
+				flagsSeen = true
 			}
+			if m := reExists.FindStringSubmatch(l.Text); m != nil && flagsSeen {
+				n, _ = strconv.Atoi(m[1])
+			}
+		}
+		if n >= 0 && n != own.Count[box] {
+			w.violate(sig+"/sees", fmt.Sprintf("%s by a session of %s announces %d messages, the mailbox of %s holds %d", a.X, a.AsUser, n, a.AsUser, own.Count[box]))
 		}
 	case a.X == "FETCH" || a.X == "UID_FETCH":
 		for _, m := range fetchRows(o.Untagged) {
